@@ -1,6 +1,6 @@
 """C09 – opaque tags stay opaque: nowiki/pre/math/source/syntaxhighlight/timeline bodies are never interpreted.
 
-Space: 6 tags x 15 embedding contexts x every body in SIGMA_B^<=2 (quick) / ^<=3 (thorough) that does not contain the tag's own
+Space: 6 tags x 18 embedding contexts x every body in SIGMA_B^<=2 (quick) / ^<=3 (thorough) that does not contain the tag's own
 closing tag.  Oracles: (1) the text the tag contributes to the tree, read between two sentinels, is exactly the body
 (character entities decoded for nowiki/pre only); (2) the tree has exactly the node structure it has when the body is a plain
 word – nothing inside the body created a node; (3) Uniquifier.replace_uniq(replace_tags(s)) == s.
@@ -24,6 +24,10 @@ CONTEXTS = [
     ("cell", "{|\n| %s\n|}\n", {}),
     ("bold", "'''%s'''", {}),
     ("caption", "{|\n|+ %s\n|-\n| c\n|}\n", {}),
+    # inside the body of extension tags that are themselves expanded and parsed again
+    ("in-ref", "x<ref>r %s</ref>y", {}),
+    ("in-poem", "<poem>\nline %s\n</poem>", {}),
+    ("in-ref-in-arg", "{{E|x<ref>%s</ref>}}", {"E": "{{{1}}}"}),
     ("positional-arg", "{{E|%s}}", {"E": "{{{1}}}"}),
     ("named-arg", "{{N|x=%s}}", {"N": "{{{x}}}"}),
     ("template-body", "{{B}}", None),
@@ -79,7 +83,7 @@ def shape(node, out):
 
 class C09(InputProp):
     id = "C09"
-    rule = ("6 tags x 15 contexts x every body over a 50-lexeme markup alphabet up to the length bound (bodies containing the tag's own "
+    rule = ("6 tags x 18 contexts x every body over a 50-lexeme markup alphabet up to the length bound (bodies containing the tag's own "
             "closing tag excluded); distinct = distinct (tag, context, tree shape) outcomes")
     assumptions = ("bodies are sequences of the 50 lexemes of SIGMA_B", "the reserved marker byte 0x7f does not occur in bodies (excluded by the statement)")
     chunk = 1500
